@@ -143,6 +143,13 @@ CHECKS = {
     note="Bounded: offsets 0..5, payload menu (raw 1/2/4, reg, cst, comp; both endiannesses), depth 2 (full) / 3 (reduced) quick, 3/4 thorough. "
          "Trusted: the 60-line dict reference and the independent expression walker amc/ref/bv.py.",
     design="DESIGN.md section 3, C08"),
+ "C20": dict(
+    category="fault_enumeration",
+    technique="exhaustive fault enumeration on read_program: every prefix truncation, every single-byte corruption (4 values) of every header/table byte (thorough: byte pairs), all byte strings of length <=2, magic numbers x fillers, corrupted HEX/SREC lines, cross-format claims; repeating SIGALRM watchdog per call",
+    text="A corpus of 8 generated ELF/PE/Mach-O/HEX/SREC images and 6 shipped samples is fed intact (the right format must claim each), truncated at every length, and with every byte of every header/table structure corrupted; "
+         "plus all 65 793 strings of <=2 bytes and 126 magic-number inputs. Each call must return a recognised format object or the raw fallback, within 3 s, without a non-format exception.",
+    note="~95 000 calls (quick). Unbounded loops are caught by a repeating alarm (survives bare except clauses); allocation is bounded by RLIMIT_AS 4 GiB. Known findings keyed by (exception type, innermost function).",
+    design="DESIGN.md section 3, C20"),
 }
 
 PENDING_REASON = "check not built yet in this session (work in progress, see DESIGN.md section 7)"
